@@ -64,7 +64,7 @@ def run(out, tier):
                 p, m = bad
                 params = template(m)
                 confirmed, rep = native.scenario(out, "analyze", params)
-                outside = any(isinstance(v, dict) and (v.get("out_of_slot") or v.get("panicked")) for v in rep.values())
+                outside = any(isinstance(v, dict) and (v.get("out_of_slot") or v.get("panicked")) for k_, v in rep.items() if k_ != "_scenario")
                 what = "sub-word lifting produces a SubWord that starts or ends outside the 256-bit word"
                 if outside:
                     out.obligation("L2.sub_word_inside_word", "mirsmt", "violated", time.time() - t0, witness=True, replay=rep, program=params)
